@@ -164,6 +164,31 @@ func Observe(label string, v ...interface{}) {
 
 func Symbolic() bool { return false }
 
+// PickIndex is the native side of the per-package zzNondetPick* helpers: the engine
+// intercepts any function whose name starts with zzNondetPick (signature
+// (name string, cands []T) T) and returns a symbolic selection among the candidates
+// (pointers become guarded target sets, scalars ite terms). Natively such a helper is
+// written as: return cands[zz.PickIndex(name, len(cands))].
+func PickIndex(name string, n int) int {
+	load()
+	v := int(vec[fresh(name)])
+	if v < 0 || v >= n {
+		panic(assumeFailed{})
+	}
+	return v
+}
+
+// IteInt is a branch-free conditional (an SMT ite in the engine).
+func IteInt(c bool, a, b int) int {
+	if c {
+		return a
+	}
+	return b
+}
+
+// Implies is a branch-free implication.
+func Implies(a, b bool) bool { return !a || b }
+
 func KnownFinding(id string) bool { load(); return known[id] }
 
 func Param(name string, def int) int {
